@@ -6,6 +6,7 @@ import IdpyVerif.Driver.Redirect
 import IdpyVerif.Driver.Pkce
 import IdpyVerif.Driver.ClientAuthn
 import IdpyVerif.Driver.Jar
+import IdpyVerif.Driver.Registration
 open Idpy
 
 structure DState where
@@ -13,6 +14,7 @@ structure DState where
   prov : Driver.Prov.DS := {}
   ca : Driver.ClientAuthn.DS := {}
   jar : Driver.Jar.DS := {}
+  reg : Registration.St := {}
 
 def dispatch (st : DState) (fields : List String) : DState × String :=
   match fields with
@@ -21,6 +23,9 @@ def dispatch (st : DState) (fields : List String) : DState × String :=
   | "redir" :: args => (st, (Driver.Redirect.handle args).getD "bad-op")
   | "msg" :: args => (st, (Driver.Msg.handle args).getD "bad-op")
   | "cookie" :: args => (st, (Driver.C17.handle args).getD "bad-op")
+  | "reg" :: args =>
+    let (r', out) := Driver.Registration.stepLine st.reg args
+    ({ st with reg := r' }, out)
   | "jar" :: args =>
     let (j', out) := Driver.Jar.stepLine st.jar args
     ({ st with jar := j' }, out)
